@@ -595,6 +595,23 @@ def c01(ctx: Ctx) -> None:
     if not _require_table(ctx, r, 'C01-R1'):
         _publish_roles(ctx, r)
         return
+    # the table is a plain dict: a mapping class of the package with behaviour of its own (an index that prunes the entries of
+    # closed loops on insert, a size cap) removes markers behind the back of the protocol the rules below check
+    from .common import mapping_with_policy
+    for v_ in r.impl_assigns.get(r.table, []):
+        fresh_ = (isinstance(v_, ast.Dict) and not v_.keys) or (isinstance(v_, ast.Call) and isinstance(v_.func, ast.Name) and not v_.args and not v_.keywords)
+        ctx.check('C01-R1', f'in-flight table {r.table} = {norm(v_)[:70]} is created by this decoration', f'{FILE}:{getattr(v_, "lineno", r.impl.lineno)}', fresh_,
+                  'an empty mapping built in the decorator body: one table per decorated function',
+                  'the table is obtained from somewhere else (a module-level registry, a parameter, a shared object): decorations that end up with the same '
+                  'table - same-named methods wrapped per instance, closures - take each other\'s markers for their own computations and wait for '
+                  'events nobody will set (each has its own cache and its own lock)',
+                  construct=construct_key(r.impl.qualname, 'in-flight table shared'))
+        mp_ = mapping_with_policy(ctx.program, v_)
+        ctx.check('C01-R1', f'in-flight table {r.table} = {norm(v_)}', f'{FILE}:{getattr(v_, "lineno", r.impl.lineno)}', mp_ is None,
+                  'a plain dict: markers come and go only where the wrapper says so',
+                  (f'{mp_[0]}({", ".join(mp_[1])}) overrides {mp_[2]}: the table adds or removes markers on its own - a live marker can vanish '
+                   '(the next caller computes the key a second time) or a dead one survive') if mp_ else '',
+                  construct=construct_key(r.impl.qualname, 'in-flight table with a policy of its own'))
     # R1
     inlined_helpers = {n.meta['name'] for n in g.nodes if n.kind == 'inline_enter'}
     for scope in [r.impl] + _descendants(r.impl):
@@ -1319,6 +1336,19 @@ def c14(ctx: Ctx) -> None:
     ctx.rule('C14-R3', 'the wrapped function is called with exactly *args, **kwargs', 1)
     ctx.rule('C14-R4', 'the supplied mapping is selected by a None test and is the only store', 2)
     ctx.rule('C14-R5', 'whenever a function is given, the decorator returns the caching wrapper built over the selected mapping', 1)
+    # ... and what the wrapper calls is the function that was given: the name is bound to the decorator's parameter by plain
+    # assignment only - a trampoline defined under that name (weak reference to a bound method, a task-spawning shim, a retry
+    # loop) is called instead of the function, with an outcome of its own when it cannot reach it
+    if r.wrapped and r.wrapped != r.func_param and r.wrapped not in r.impl.params:
+        binds_ = [v_ for v_ in r.impl_assigns.get(r.wrapped, [])]
+        defs_ = [c_ for c_ in r.impl.children if c_.kind == 'function' and c_.name == r.wrapped]
+        okw_ = bool(binds_) and all(isinstance(v_, ast.Name) and v_.id == r.func_param for v_ in binds_) and not defs_
+        ctx.check('C14-R3', f'{r.wrapped} is the decorator\'s `{r.func_param}`: bound by {[norm(v_) for v_ in binds_]}' + (f' and {len(defs_)} def(s)' if defs_ else ''),
+                  f'{FILE}:{(defs_[0].lineno if defs_ else getattr(binds_[0], "lineno", r.impl.lineno)) if (defs_ or binds_) else r.impl.lineno}', okw_,
+                  'the caller\'s function itself is what gets awaited', f'on some path `{r.wrapped}` is something built around the function (a def / a wrapper call): '
+                  'the computing caller awaits that shim - its failures (a dead weak reference, a shim\'s own task being cancelled) reach callers as if '
+                  'the function had produced them, and invocations can be shared or repeated outside the cache\'s bookkeeping',
+                  construct=construct_key(r.impl.qualname, 'wrapped function replaced by a shim'))
     # every way out of the decorator (and of the factory it delegates to): the wrapper, the partial for the options form, or the
     # hand-over to the factory - an early `return func` (an "already decorated" shortcut, say) drops the caller's mapping
     for host in ([r.outer] if r.outer is r.impl else [r.outer, r.impl]):
